@@ -365,7 +365,7 @@ pub fn c01() -> EngineProp {
         profile: p01,
         monitors: m01_all,
         nontrivial: nt01,
-        quick_cases: 1500,
+        quick_cases: 8000,
         thorough_cases: 40_000,
         rule: "any-driver EngineSim histories (user submissions, open/close, server packets incl. adversarial acks, write completions, service with generated buffer capacity, clock advances, reset) over all offline/drain/retry/version configurations; non-trivial = at least one accepted operation AND (a close while an operation was queued / half encoded / unflushed / awaiting its ack, or an adversarial/duplicated ack, or an ack timeout, or a reset with unresolved operations); distinct = different hash of the abstracted event history",
         directed: no_directed,
@@ -405,7 +405,7 @@ pub fn c04() -> EngineProp {
         profile: p04,
         monitors: m04_all,
         nontrivial: nt04,
-        quick_cases: 1500,
+        quick_cases: 8000,
         thorough_cases: 40_000,
         rule: "QoS1/2-heavy EngineSim histories with state-directed closes at every listed position (queued, half encoded, unflushed, awaiting PUBACK/PUBREC/PUBCOMP, PUBREL queued / half encoded) followed by reconnects with session present / absent / failing CONNACK; non-trivial = a QoS>=1 publish interrupted at one of those positions and followed by a reconnect; distinct = abstracted event history hash",
         directed: no_directed,
@@ -464,7 +464,7 @@ pub fn c05() -> EngineProp {
         profile: p05,
         monitors: m05_all,
         nontrivial: nt05,
-        quick_cases: 1500,
+        quick_cases: 8000,
         thorough_cases: 40_000,
         rule: "inbound-heavy EngineSim histories: server PUBLISH (QoS0/1/2, DUP or not, identifiers drawn from 6 values so they repeat) and PUBREL (known and unknown ids) interleaved with outbound traffic, small buffers, closes and reconnects with/without session; non-trivial = a QoS2 identifier repeated before its PUBREL, or >= 3 acknowledged inbound packets on one connection; distinct = abstracted event history hash",
         directed: no_directed,
@@ -511,7 +511,7 @@ pub fn c06() -> EngineProp {
         profile: p06,
         monitors: m06_all,
         nontrivial: nt06,
-        quick_cases: 1500,
+        quick_cases: 8000,
         thorough_cases: 30_000,
         rule: "EngineSim histories mixing subscribe/unsubscribe/QoS1/QoS2 with all ack orders, ack timeouts, operations failing last-chance validation after an id was bound (packet size, QoS, retain limits from CONNACK), closes at every position and session outcomes; the extra step runs long histories that cross the 65535->1 wrap with occupied identifiers; non-trivial = >= 3 distinct identifiers on the wire AND an identifier released through a failure path or a reconnect; distinct = abstracted event history hash",
         directed: no_directed,
@@ -555,7 +555,7 @@ pub fn c07() -> EngineProp {
         profile: p07,
         monitors: m07_all,
         nontrivial: nt07,
-        quick_cases: 1500,
+        quick_cases: 8000,
         thorough_cases: 30_000,
         rule: "EngineSim histories of up to several connections with outcomes success (+assigned client id) / failing CONNACK / silence until the deadline / protocol garbage, user operations and DISCONNECT requests at any moment of the handshake, buffer capacities 4..4096, unsolicited and repeated CONNACKs; non-trivial = CONNECT spanning >= 3 service calls, or a user event during the handshake, or >= 3 connections; distinct = abstracted event history hash",
         directed: no_directed,
@@ -601,7 +601,7 @@ pub fn c09() -> EngineProp {
         profile: p09,
         monitors: m09_all,
         nontrivial: nt09,
-        quick_cases: 1500,
+        quick_cases: 8000,
         thorough_cases: 40_000,
         rule: "QoS1/2-heavy EngineSim histories with receive-maximum in {1,2,3,10,65535,absent}, reordered and delayed acks, resubmission bursts after reconnect, both drain policies; non-trivial = at least receive-maximum QoS>0 publishes sent on one connection (bound reachable), or one-at-a-time policy with an operation interrupted while awaiting its ack and a reconnect; distinct = abstracted event history hash",
         directed: no_directed,
@@ -664,7 +664,7 @@ pub fn c10() -> EngineProp {
         profile: p10,
         monitors: m10_all,
         nontrivial: nt10,
-        quick_cases: 1500,
+        quick_cases: 8000,
         thorough_cases: 40_000,
         rule: "EngineSim histories with long queues of mixed operations submitted while offline or throttled, closes with a duplicate publish half encoded and others in flight, session outcomes, offline policies and receive-maximum stalls; non-trivial = a connection carrying >= 2 retransmissions and >= 2 fresh operations (or >=1 and >=3); distinct = abstracted event history hash",
         directed: no_directed,
@@ -713,7 +713,7 @@ pub fn c11() -> EngineProp {
         profile: p11,
         monitors: m11_all,
         nontrivial: nt11,
-        quick_cases: 2000,
+        quick_cases: 8000,
         thorough_cases: 50_000,
         rule: "driver-producible EngineSim histories against an adversarial broker (wrong-type / unknown-id / duplicate acks, reason-count mismatch, AUTH, second CONNACK, garbage, truncated packets, bad aliases, oversize packets, CONNACK before the CONNECT was flushed) with extreme configuration values (0 / 1 ms / huge timeouts, keep-alive 0/1/65535, capacity 4), plus compliant-broker cases for the converse clause; non-trivial = an error path taken, or an event delivered after an error, or an ack timeout fired, or a steered CONNACK during CONNECT transmission; distinct = abstracted event history hash",
         directed: no_directed,
@@ -787,7 +787,7 @@ pub fn c15() -> EngineProp {
         profile: p15,
         monitors: m15_all,
         nontrivial: nt15,
-        quick_cases: 1500,
+        quick_cases: 8000,
         thorough_cases: 40_000,
         rule: "EngineSim histories over the four offline policies x all operation kinds x every position at the moment of disconnection (state-directed closes) x session present/absent x submissions in every non-connected engine state, ending with a drain phase against a responsive broker; non-trivial = policy != PreserveAll with an operation of a rejected kind alive across a disconnection together with a preserved one (or PreserveNothing), or submitted while offline; distinct = abstracted event history hash",
         directed: no_directed,
@@ -831,7 +831,7 @@ pub fn c17() -> EngineProp {
         profile: p17,
         monitors: m17_all,
         nontrivial: nt17,
-        quick_cases: 1500,
+        quick_cases: 8000,
         thorough_cases: 40_000,
         rule: "publish-heavy EngineSim histories over 5 topics with the null / manual / LRU(1,2,10) resolvers, server alias maximum in {absent,0,1,2,8}, operations failing last-chance validation or interrupted after alias resolution, reconnects; inbound alias/topic sequences incl. rebinding and unknown / zero / out-of-range aliases; non-trivial = an outbound PUBLISH with empty topic + alias, or >= 2 aliased publishes with a validation failure between, or an inbound aliased PUBLISH; distinct = abstracted event history hash",
         directed: no_directed,
@@ -875,7 +875,7 @@ pub fn c18() -> EngineProp {
         profile: p18,
         monitors: m18_all,
         nontrivial: nt18,
-        quick_cases: 1500,
+        quick_cases: 2000,
         thorough_cases: 40_000,
         rule: "EngineSim histories with ack timeouts in {none,0,1,50,1000 ms}, clock advances of 0/1/49/50/51/999/1000/1500 ms and jumps to / just before / past the reported next-service time, multi-write packets, QoS2 handshakes, retry limits N in {0,1,2,5} and sequences of closes interleaved with partial progress; non-trivial = an ack timeout fired, or the retry limit was hit, or an operation was transmitted on >= 2 connections under a retry limit; distinct = abstracted event history hash",
         directed: no_directed,
